@@ -73,17 +73,17 @@ Qed.
 End Closure.
 
 (* ---------- the two methods produce seeds of that form ---------- *)
-Lemma sto_fold_seeded ds strord ms l : forall sb idxs, NoDup l -> (forall x, In x l -> (x < length ds)%nat) ->
+Lemma sto_fold_seeded ds strord mask ms l : forall sb idxs, NoDup l -> (forall x, In x l -> (x < length ds)%nat) ->
   seeded (length ds) sb idxs -> (forall x, In x idxs -> ~ In x l) ->
-  let st := fold_left (sto_step ds strord ms) l (sb, idxs) in
+  let st := fold_left (sto_step ds strord mask ms) l (sb, idxs) in
   seeded (length ds) (fst st) (snd st) /\ (forall x, In x (snd st) -> In x idxs \/ In x l).
 Proof.
   induction l as [|i l IH]; intros sb idxs Hnd Hb Hs Hd; cbn [fold_left].
   - simpl. split; auto.
   - inversion Hnd as [|x l' Hni Hnd']; subst.
-    assert (Hstep : exists sb' idxs', sto_step ds strord ms (sb, idxs) i = (sb', idxs') /\ seeded (length ds) sb' idxs' /\
+    assert (Hstep : exists sb' idxs', sto_step ds strord mask ms (sb, idxs) i = (sb', idxs') /\ seeded (length ds) sb' idxs' /\
               (forall x, In x idxs' -> In x idxs \/ x = i)).
-    { unfold sto_step. destruct (nth i strord 0 <? ms); [exists sb, idxs; auto|].
+    { unfold sto_step. destruct (negb (mget mask i) || (nth i strord 0 <? ms)); [exists sb, idxs; auto|].
       destruct (negb (nth i strord 0 =? nth (dsf ds i) strord 0) || (dsf ds i =? i)%nat); [|exists sb, idxs; auto].
       exists (upd sb i (Z.of_nat (length idxs) + 1)), (idxs ++ [i]). split; auto. split.
       - apply seeded_add; auto. intros H. apply (Hd i H). left; auto. apply Hb. left; auto.
@@ -95,14 +95,14 @@ Proof.
       destruct (Hsub x H) as [H'| ->]; [left; auto|right; left; auto].
 Qed.
 
-Theorem streamorder_seeded ds sq strord min_sto : topo ds sq ->
+Theorem streamorder_seeded ds sq strord mask min_sto : topo ds sq ->
   let ms := if min_sto <? 0 then fold_right Z.max 0 strord + min_sto else min_sto in
-  let st := fold_left (sto_step ds strord ms) (rev sq) (repeat 0 (length ds), []) in
+  let st := fold_left (sto_step ds strord mask ms) (rev sq) (repeat 0 (length ds), []) in
   seeded (length ds) (fst st) (snd st) /\ (forall x, In x (snd st) -> In x sq) /\
-  subbasins_streamorder ds sq strord min_sto = (fillnodata_upstream ds sq (fst st) 0, snd st).
+  subbasins_streamorder ds sq strord mask min_sto = (fillnodata_upstream ds sq (fst st) 0, snd st).
 Proof.
   intros Ht ms st.
-  destruct (sto_fold_seeded ds strord ms (rev sq) (repeat 0 (length ds)) []) as [H1 H2].
+  destruct (sto_fold_seeded ds strord mask ms (rev sq) (repeat 0 (length ds)) []) as [H1 H2].
   - apply NoDup_rev. apply (topo_NoDup ds); auto.
   - intros x Hx. rewrite <- in_rev in Hx. destruct (topo_valid ds sq x Ht Hx); auto.
   - apply seeded_init.
@@ -155,22 +155,37 @@ Proof.
     + unfold subbasins_area. fold st. destruct st as [[a b] c]. reflexivity.
 Qed.
 
-(* stream-order sub-basins start where the order changes downstream (or at a pit) *)
-Theorem sto_outlet_condition ds strord ms l : forall sb idxs x,
-  In x (snd (fold_left (sto_step ds strord ms) l (sb, idxs))) -> In x idxs \/
-  (In x l /\ ms <= nth x strord 0 /\ (nth x strord 0 <> nth (dsf ds x) strord 0 \/ dsf ds x = x)).
+(* stream-order sub-basins start where the order changes downstream (or at a pit), at cells where the mask holds *)
+Theorem sto_outlet_condition ds strord mask ms l : forall sb idxs x,
+  In x (snd (fold_left (sto_step ds strord mask ms) l (sb, idxs))) -> In x idxs \/
+  (In x l /\ mget mask x = true /\ ms <= nth x strord 0 /\ (nth x strord 0 <> nth (dsf ds x) strord 0 \/ dsf ds x = x)).
 Proof.
   induction l as [|i l IH]; intros sb idxs x Hx; cbn [fold_left] in Hx; [left; exact Hx|].
   unfold sto_step at 2 in Hx.
+  destruct (mget mask i) eqn:Em; cbn [negb orb] in Hx;
+    [|destruct (IH _ _ _ Hx) as [H|(H1 & H2)]; [left; auto|right; split; [right; auto|auto]]].
   destruct (Z.ltb_spec (nth i strord 0) ms) as [Hlt|Hge].
   - destruct (IH _ _ _ Hx) as [H|(H1 & H2)]; [left; auto|right; split; [right; auto|auto]].
   - destruct (negb (nth i strord 0 =? nth (dsf ds i) strord 0) || (dsf ds i =? i)%nat) eqn:Ec.
     + destruct (IH _ _ _ Hx) as [H|(H1 & H2)]; [|right; split; [right; auto|auto]].
       apply in_app_or in H. destruct H as [H|[<-|[]]]; [left; auto|right].
-      split; [left; auto|]. split; [lia|]. apply orb_true_iff in Ec. destruct Ec as [Ec|Ec].
+      split; [left; auto|]. split; [exact Em|]. split; [lia|]. apply orb_true_iff in Ec. destruct Ec as [Ec|Ec].
       * left. apply negb_true_iff, Z.eqb_neq in Ec. auto.
       * right. apply Nat.eqb_eq. auto.
     + destruct (IH _ _ _ Hx) as [H|(H1 & H2)]; [left; auto|right; split; [right; auto|auto]].
+Qed.
+
+(* mask: consider only True cells -- every outlet returned under a mask `Some m` is a cell where m holds *)
+Theorem streamorder_outlets_masked ds sq strord m min_sto x :
+  In x (snd (subbasins_streamorder ds sq strord (Some m) min_sto)) -> nth x m false = true.
+Proof.
+  unfold subbasins_streamorder. cbv zeta.
+  set (ms := if min_sto <? 0 then fold_right Z.max 0 strord + min_sto else min_sto).
+  destruct (fold_left (sto_step ds strord (Some m) ms) (rev sq) (repeat 0 (length ds), [])) as [sb ix] eqn:E.
+  cbn [snd]. intros Hx.
+  destruct (sto_outlet_condition ds strord (Some m) ms (rev sq) (repeat 0 (length ds)) [] x) as [[]|(_ & Hm & _)].
+  - rewrite E. exact Hx.
+  - exact Hm.
 Qed.
 
 (* minimum-area sub-basins that do not end at a pit drain more than the area threshold, and cutting them off leaves
